@@ -456,7 +456,7 @@ fn run(cfg: &Cfg) -> Report {
     // 2. random histories
     if !rep.failed() {
         let max_len = cfg.tier.pick(40usize, 200usize);
-        let cases = cfg.tier.pick(3000u32, 40000u32);
+        let cases = cfg.tier.pick(20000u32, 100000u32);
         rep.absorb(run_proptest(
             cfg,
             "random",
@@ -468,7 +468,7 @@ fn run(cfg: &Cfg) -> Report {
     }
     // 3. language layer
     if !rep.failed() {
-        let cases = cfg.tier.pick(150u32, 4000u32);
+        let cases = cfg.tier.pick(1500u32, 8000u32);
         rep.absorb(run_proptest(
             cfg,
             "language",
